@@ -273,6 +273,8 @@ pub fn record(args: &Args) {
             for j in (i + 1)..n {
                 let v = if mode == "union" {
                     (weight(&sets[i]) - weight(&sets[j])).abs()
+                } else if style == 2 {
+                    (vals[k] - npairs as i64) * scale // tie free, about a third of the distances negative (a user function may return e.g. -similarity)
                 } else if style == 0 {
                     (1 + rng.below(3) as i64) * scale // many ties
                 } else if style == 1 && rng.chance(1, 4) {
@@ -290,7 +292,7 @@ pub fn record(args: &Args) {
                 return INF;
             }
             let y = if mode == "union" { x as f64 } else { x as f64 * scale as f64 };
-            if (y - y.round()).abs() < 1e-6 && y >= 0.0 { y.round() as i64 } else { -1 }
+            if (y - y.round()).abs() < 1e-6 && y.abs() < 9.0e8 { y.round() as i64 } else { -999_999_937 } // (sentinel: not an exact scaled integer)
         };
         let calls: std::cell::RefCell<Vec<Vec<(Vec<u32>, Vec<u32>)>>> = std::cell::RefCell::new(vec![]);
         let res = catch(|| {
